@@ -116,7 +116,7 @@ func persistEquiv(c *ctx, sb *zap.SegmentBase, spec sx.V, ndocs uint64, mode uin
 }
 
 func checkC04(c *ctx) {
-	c.Rule = "batches of the C01/C02/C03/C12 generators (incl. synonym documents, stored arrays, >64KB values, _id lengths up to 65536 incl. exact multiples of 32 KiB) x chunk modes; for each: Persist bytes = WriteTo bytes; the model decodes the 52-byte footer and recomputes CRC-32 with the Gallina CRC; the persisted+opened segment's complete dump = the in-memory segment's dump = extracted spec_of_batch; plus one segment larger than 2 MiB (offsets beyond 2^21) per run; many segments are built in one process so that pooled builder state is reused; thesauri may be named like ordinary doc-value fields (data in two sections); 8 goroutines persist / WriteTo different segments at the same time and every image must equal the one the segment produces alone; non-trivial = >= 2 docs and >= 3 tokens"
+	c.Rule = "batches of the C01/C02/C03/C12 generators (incl. synonym documents, stored arrays, >64KB values, _id lengths up to 65536 incl. exact multiples of 32 KiB) x chunk modes; for each: Persist bytes = WriteTo bytes; the model decodes the 52-byte footer and recomputes CRC-32 with the Gallina CRC; the persisted+opened segment's complete dump = the in-memory segment's dump = extracted spec_of_batch; plus one segment larger than 2 MiB (offsets beyond 2^21) per run; many segments are built in one process so that pooled builder state is reused; thesauri may be named like ordinary doc-value fields (data in two sections); 8 goroutines persist / WriteTo different segments at the same time and every image must equal the one the segment produces alone; one path used for successive segments of equal length (a field renamed to a name of the same length, values swapped between fields): what is opened is what was persisted last; non-trivial = >= 2 docs and >= 3 tokens"
 	c.Assumptions = append(c.Assumptions, "mmap/open are OS behaviour; vectors are covered by C14 (vectors tag)")
 	n := c.n(100, 3000)
 	saved := zap.LegacyChunkMode
